@@ -130,3 +130,18 @@ func structure(d *rmath.Dec) (finite bool, coefAbs *big.Int, neg bool, exp int32
 	coefAbs = new(big.Int).SetBits(append([]big.Word(nil), v.Coeff.Bits()...))
 	return finite, coefAbs, v.Negative, v.Exponent, v.Coeff.Sign() < 0
 }
+
+// rebuild constructs a Dec equal to the shadowed value on a fresh backing array (written through the mirror; no
+// library code involved).
+func (s *shadow) rebuild() rmath.Dec {
+	var d rmath.Dec
+	v := view(&d)
+	v.Form, v.Negative, v.Exponent = s.form, s.neg, s.exp
+	words := make([]big.Word, len(s.words), len(s.words)+4)
+	copy(words, s.words)
+	v.Coeff.SetBits(words)
+	if s.coefNeg {
+		v.Coeff.Neg(&v.Coeff)
+	}
+	return d
+}
